@@ -21,7 +21,7 @@ QUANTIFIED OVER: {p['quantifier']['text']}
 
 Relevant source files: {', '.join(p['anchors']['files'])}
 
-YOUR TASK: produce {n} DIFFERENT, independent source changes ("mutations") to the library (files under {wt}/rig/ only), each of which
+YOUR TASK: produce {n} DIFFERENT, independent source changes (avoid the most obvious single-token slips such as one flipped comparison in the main loop: look for mistakes in less-travelled branches, state carried between calls or loop iterations, interactions between two functions, boundary arithmetic, and argument or cache aliasing) ("mutations") to the library (files under {wt}/rig/ only), each of which
   (a) BREAKS the property above (for some input / fault sequence / call history),
   (b) still imports and compiles, and
   (c) keeps the repository's existing pinned test suite green: run `/venv/bin/python /tmp/baseline_check.py {wt}` — it must print missing_from_stable=0 and exit 0 (it takes ~20 s). 
